@@ -44,6 +44,10 @@ def run_case(name, patch: Path, expect, checks):
         env = dict(os.environ, PYTHONPATH=str(wt), PYTHONDONTWRITEBYTECODE="1")
         r = sh("/venv/bin/python -m pytest -q -p no:cacheprovider 2>&1 | tail -1", cwd=wt, env=env)
         res["tests"] = r.stdout.strip()
+        demo = patch.parent / "demo.py"
+        if demo.exists():
+            r = sh(["/venv/bin/python", str(demo)], cwd=base, env=env)
+            res["demo_with_change_rc"] = r.returncode
         sb = base / "sb"
         sb.mkdir()
         for c in checks:
@@ -59,7 +63,10 @@ def run_case(name, patch: Path, expect, checks):
     alarmed = sorted(c for c, v in res["checks"].items() if v["rc"] == 1 and v["violations"] > 0)
     broken = sorted(c for c, v in res["checks"].items() if v["rc"] not in (0, 1))
     res["alarmed"], res["broken"] = alarmed, broken
-    if "157 passed" not in res.get("tests", ""):
+    if res.get("demo_with_change_rc") == 0:
+        res["verdict"] = "STALE SEED (its demonstration passes with the change on the current tree: later repairs removed the precondition)"
+        res["stale"] = True
+    elif "157 passed" not in res.get("tests", ""):
         res["verdict"] = "INVALID (repository tests do not pass with the change)"
     elif expect == ["silent"]:
         res["verdict"] = "ok" if not alarmed and not broken else "FALSE ALARM" if alarmed else "BROKEN CHECK"
@@ -90,7 +97,7 @@ def main() -> int:
             continue
         r = run_case(name, patch, expect, checks)
         out.append(r)
-        ok = r.get("verdict") == "ok"
+        ok = r.get("verdict") == "ok" or r.get("stale")
         bad += not ok
         log(f"[selftest] {name:8s} expect={' '.join(expect):14s} alarmed={','.join(r.get('alarmed', [])) or '-':20s} {r.get('verdict', r.get('error'))}")
     (VERIF / "selftest_result.json").write_text(json.dumps(out, indent=1))
